@@ -111,6 +111,9 @@ func probeFromJSON(b []byte) (*parse.Result, error) {
 	if err := json.Unmarshal(b, msg); err != nil {
 		return nil, err
 	}
+	if msg.Label < 0 {
+		return nil, fmt.Errorf("verif.Probe: negative label")
+	}
 	p := probe{msg.Label, msg.FailReq, msg.FailRes}
 	var mod interface{}
 	switch msg.Caps {
@@ -322,8 +325,10 @@ func sameInts(a, b []int) bool {
 	return true
 }
 
-func (e *ex) post(n *node) core.Result {
-	text := []byte(n.json(true))
+func (e *ex) post(n *node) core.Result { return e.postText([]byte(n.json(true)), n) }
+
+// postText: the body text goes to parse.FromJSON and to the configure handler; n is what the text says.
+func (e *ex) postText(text []byte, n *node) core.Result {
 	r, perr := parse.FromJSON(text)
 	var impl string
 	if perr != nil {
@@ -466,6 +471,17 @@ func (e *ex) Do(op string) core.Result {
 				map[bool]string{true: "holds", false: "does not hold"}[want])}
 		}
 		return core.Result{Impl: b01(got), ModelOp: "cond " + f[1] + " " + c.token() + " " + f[3]}
+	case len(f) >= 3 && f[0] == "postj":
+		style, err := strconv.Atoi(f[1])
+		j, rest, ok := parseJV(f[2:], 0)
+		if err != nil || style < 0 || style > 7 || !ok || len(rest) != 0 {
+			return core.Result{Impl: "bad-op"}
+		}
+		n := decodeJV(j)
+		if n == nil {
+			return core.Result{Impl: "bad-op"}
+		}
+		return e.postText([]byte(j.render(style)), n)
 	case len(f) == 5 && f[0] == "race":
 		seed, err := strconv.ParseUint(f[1], 10, 64)
 		nb, err1 := strconv.Atoi(f[2])
